@@ -34,6 +34,8 @@ OBLIGATIONS = [
     "VgiVerif.C28.C28_histories",
     "VgiVerif.C28.table_codec_rt",
     "VgiVerif.C28.table_write_footprint",
+    "VgiVerif.C28.table_write_extent",
+    "VgiVerif.C28.header_data_disjoint",
     "VgiVerif.C28.table_read_footprint",
     "VgiVerif.C28.sink_contained",
     "VgiVerif.C28.sink_accepts_fitting",
@@ -52,8 +54,11 @@ TRUSTED = [
 RULE = (
     "exhaustive DFS over all op sequences (alloc of 1..S units, free of every unit-aligned offset, reset) up to depth D on "
     "S-unit data regions, every (header bytes, op) transition checked; random long histories on segments up to 2^64-1 "
-    "bytes with boundary-biased sizes (gap, gap+-1, 0, -1, 2^64) and frees of live / dead / shifted offsets; tables at "
-    "the 4094-entry limit; real ShmSegment writes of generated batches (narrow, 50..2000 columns, 1K..256K schema / field "
+    "bytes with boundary-biased sizes (gap, gap+-1, 0, -1, 2^64) and frees of live / dead / shifted offsets; in every "
+    "allocator-level run the first 256 data bytes sit behind the header and the bytes of live regions are compared after "
+    "each call; tables at MAX-1 / MAX / MAX+1 entries (packed header, three region strides) and real ShmSegments filled to "
+    "the limit by genuine calls with a real batch at the start of the data region, every live region's bytes compared "
+    "after each allocate / allocate_and_write / free around the limit; real ShmSegment writes of generated batches (narrow, 50..2000 columns, 1K..256K schema / field "
     "metadata, dictionary columns, slices) into a hole of exactly the estimated size between two live batches, at the "
     "tight end of a segment, and into an empty segment; raw _ShmSink write sequences incl. after a refusal. A case is "
     "distinct by (total, header bytes, op) resp. (layout, batch description); non-trivial when the op reaches the allocator"
@@ -161,14 +166,19 @@ def check_inv(ctx: Any, case: Any, post: list, total: int) -> None:
 # ------------------------------------------------------------------------------------------ real allocator on a bare header
 
 
+WIN = 256  # bytes of data region kept behind the header in allocator-level runs (all 0xA5: what live batches "contain")
+
+
 class Alloc:
-    """The real ShmAllocator on a header-only buffer (total_size is a parameter of the allocator, no data bytes needed)."""
+    """The real ShmAllocator on the header plus the first WIN bytes of the data region (total_size is a parameter of the
+    allocator).  The window is filled with FILL; allocator calls must leave the bytes of every live region as they are."""
 
     def __init__(self, total: int) -> None:
         from vgi_rpc.shm import ShmAllocator
 
         self.total = total
-        self.raw = bytearray(H + 256)  # slack behind the header: a table that outgrows the header is observed, not a crash
+        self.raw = bytearray(H + WIN)
+        self.raw[H:] = bytes([FILL]) * WIN
         self.buf = memoryview(self.raw)
         ShmAllocator.initialize(self.buf, total)
         self.a = ShmAllocator(self.buf, total)
@@ -201,9 +211,18 @@ def step_case(ctx: Any, al: Alloc, op: dict, pending: list, tags: tuple[str, ...
     """Apply one op on the real allocator, run O, queue the K comparison (pre header carried along)."""
     pre_hdr = al.hdr(stale)
     pre = parse_header(al.raw)
+    big = len(pre) > BYTE_LEVEL_MAX_ENTRIES
+    # what the model is given for a big table: the header prefix (memory behind it is FILL in the model, as in the data
+    # window here), or — when the table comes within 64 bytes of the data region — the whole header and 64 data bytes
+    near_end = 24 + 16 * (len(pre) + 2) >= H - 64
+    pre_buf = bytes(al.raw[: H + 64]) if big and near_end else pre_hdr
+    lo = H - 64 if near_end else H
     res = al.apply(op)
     post = parse_header(al.raw)
     post_hdr = bytes(al.raw[: max(len(pre_hdr), 24 + 16 * len(post))])
+    post_win = bytes(al.raw[lo : H + 64])
+    data_after = bytes(al.raw[H:])
+    al.raw[H:] = bytes([FILL]) * WIN  # later steps are judged on their own
     case = {"kind": "alloc-step", "total": al.total, "header": pre_hdr.hex(), "op": op}
     kind = op["k"]
     ctx.case(case, nontrivial=True, tags=tags + (f"op:{kind}", f"res:{_res_tag(res)}", f"entries:{_bucket(len(pre))}"))
@@ -211,13 +230,18 @@ def step_case(ctx: Any, al: Alloc, op: dict, pending: list, tags: tuple[str, ...
         report(ctx, case, f"C28:allocator-{res}", f"{kind} on a table of {len(pre)} entries {res}")
     elif not inv_violations(pre, al.total):
         check_inv(ctx, case, post, al.total)
+        if data_after.strip(bytes([FILL])):
+            hit = [(o, l) for o, l in pre if o < H + WIN and data_after[o - H : o - H + l].strip(bytes([FILL]))]
+            if hit:
+                report(ctx, case, "C28:op-altered-live-batch", f"{kind} on a table of {len(pre)} entries changed bytes of live region(s) {hit[:3]} "
+                       f"(data region starts with {data_after[:16].hex()})")
         if kind == "alloc" and op["n"] > 0 and res != "ValueError":
             check_alloc(ctx, case, pre, post, al.total, op["n"], res)
         elif kind == "free" and any(o == op["x"] for o, _ in pre):
             want = [e for e in pre if e[0] != op["x"]]
             if res != "ok" or post != want:
                 report(ctx, case, "C28:free-table-change", f"free({op['x']}) -> {res}; table is not the old table minus that entry")
-    pending.append((case, pre_hdr, op, res, post, post_hdr))
+    pending.append((case, pre_buf if big else pre_hdr, op, res, post, post_hdr, big, lo, post_win))
     return res
 
 
@@ -229,26 +253,28 @@ def _bucket(n: int) -> str:
     return "0" if n == 0 else "1-3" if n <= 3 else "4-15" if n <= 15 else "16-255" if n <= 255 else "256+"
 
 
-BYTE_LEVEL_MAX_ENTRIES = 48  # above this the model is asked at table level (its byte-level memory is a closure chain: O(n^2))
+BYTE_LEVEL_MAX_ENTRIES = 48  # above this the model's memory (a closure chain) is read in a window only, not the whole header
 
 
 def flush(ctx: Any, pending: list) -> None:
-    """K: model vs implementation for the queued transitions (byte level for small tables, table level for big ones)."""
+    """K: model vs implementation for the queued transitions.  Small tables: the whole header byte for byte.  Big tables:
+    returned value, table, and the bytes around the header / data boundary (`cwin`)."""
     if ctx.driver is None or not pending:
         pending.clear()
         return
     reqs = []
-    for c, h, op, _r, _p, _ph in pending:
-        if (len(h) - 24) // 16 <= BYTE_LEVEL_MAX_ENTRIES:
+    for c, h, op, _r, _p, _ph, big, lo, _w in pending:
+        if not big:
             reqs.append(("C28.cstep", {"total": c["total"], "header": h.hex(), "op": op}))
         else:
-            reqs.append(("C28.tstep", {"total": c["total"], "table": [list(e) for e in parse_header(h)], "op": op}))
-    for (case, _h, op, res, post, post_hdr), (fn, _a), m in zip(pending, reqs, ctx.driver.batch(reqs)):
-        out_ok = m["out"] == res or (fn == "C28.tstep" and op["k"] == "reset")
-        if not out_ok or [tuple(e) for e in m["table"]] != post:
+            reqs.append(("C28.cwin", {"total": c["total"], "header": h.hex(), "op": op, "lo": lo, "n": H + 64 - lo}))
+    for (case, _h, op, res, post, post_hdr, big, _lo, post_win), m in zip(pending, ctx.driver.batch(reqs)):
+        if m["out"] != res or [tuple(e) for e in m["table"]] != post:
             ctx.mismatch(case, {"out": m["out"], "table": m["table"][:8]}, {"out": res, "table": post[:8]}, "allocator step: model vs implementation")
-        elif fn == "C28.cstep" and m["header"][: 2 * len(post_hdr)] != post_hdr.hex():
+        elif not big and m["header"][: 2 * len(post_hdr)] != post_hdr.hex():
             ctx.mismatch(case, m["header"][:160], post_hdr.hex()[:160], "header bytes after the step: model vs implementation")
+        elif big and m["window"] != post_win.hex():
+            ctx.mismatch(case, m["window"], post_win.hex(), "bytes around the header/data boundary after the step: model vs implementation")
     pending.clear()
 
 
@@ -326,22 +352,112 @@ def random_history(ctx: Any, rng: Any, n_ops: int, pending: list) -> None:
 
 
 def near_limit(ctx: Any, rng: Any, pending: list) -> None:
-    """Tables at the 4094-entry limit: the header is packed directly (a reachable state: 1-byte regions, 1-byte holes)."""
-    total = H + 3 * MAX
-    al = Alloc(total)
-    n0 = MAX - 2
-    struct.pack_into("<I", al.raw, 16, n0)
-    for i in range(n0):
-        struct.pack_into("<QQ", al.raw, 24 + 16 * i, H + 2 * i, 1)
-    tags = ("gen:near-limit",)
-    live = [H + 2 * i for i in range(n0)]
-    ops = [{"k": "alloc", "n": 1}, {"k": "alloc", "n": 1}, {"k": "alloc", "n": 1}, {"k": "alloc", "n": 5},
-           {"k": "free", "x": rng.choice(live)}, {"k": "alloc", "n": 2}, {"k": "alloc", "n": 1}, {"k": "alloc", "n": 1},
-           {"k": "free", "x": H + 1}, {"k": "free", "x": rng.choice(live)}, {"k": "alloc", "n": 3 * MAX}]
-    for op in ops:
-        res = step_case(ctx, al, op, pending, tags, stale=1)
-        ctx.tag(f"limit:{_res_tag(res)}:{len(parse_header(al.raw))}")
-    flush(ctx, pending)
+    """Tables at MAX-1 / MAX / MAX+1 entries on the allocator level: the header is packed directly (a reachable state), the
+    first regions lie in the data window, so a table write that reaches past the header is seen on live bytes."""
+    for unit, stride in ((1, 2), (8, 8), (16, 24)):
+        total = H + stride * (MAX + 8)
+        al = Alloc(total)
+        n0 = MAX - 2
+        struct.pack_into("<I", al.raw, 16, n0)
+        for i in range(n0):
+            struct.pack_into("<QQ", al.raw, 24 + 16 * i, H + stride * i, unit)
+        tags = ("gen:near-limit",)
+        live = [H + stride * i for i in range(n0)]
+        ops = [{"k": "alloc", "n": unit}, {"k": "alloc", "n": unit}, {"k": "alloc", "n": unit}, {"k": "alloc", "n": 5 * unit},
+               {"k": "free", "x": rng.choice(live[1:])}, {"k": "alloc", "n": unit}, {"k": "alloc", "n": 1},
+               {"k": "free", "x": live[-1]}, {"k": "free", "x": rng.choice(live[1:-1])}, {"k": "alloc", "n": unit},
+               {"k": "alloc", "n": unit}, {"k": "alloc", "n": stride * (MAX + 8)}]
+        for op in ops:
+            res = step_case(ctx, al, op, pending, tags, stale=1)
+            ctx.tag(f"limit:{_res_tag(res)}:{len(parse_header(al.raw))}")
+        flush(ctx, pending)
+
+
+SMALL = {"seed": 11, "rows": 4, "cols": 1, "types": "int64", "tag": "narrow"}
+
+
+def limit_segment(ctx: Any, seed: int) -> None:
+    """A real ShmSegment driven to its table limit by genuine calls: a real batch at the start of the data region, then
+    allocations (each filled with a pattern) up to MAX-2 entries; from there every operation around MAX-1 / MAX / MAX+1
+    (allocate, allocate_and_write, free) is followed by a comparison of the bytes of *every* region that was live before it."""
+    import logging
+    import random
+
+    from vgi_rpc import shm
+
+    rng = random.Random(seed)
+    unit = rng.choice([1, 8, 16, 40])
+    first = build_batch({"seed": seed, "rows": rng.choice([3, 50]), "cols": rng.choice([1, 3]), "types": "mixed", "tag": "narrow"})
+    small = build_batch(SMALL)
+    meas_small = measure(small)
+    seg = shm.ShmSegment.create(H + (unit + 8) * (MAX + 16) + 4 * meas_small["need"] + 65536)
+    case = {"kind": "limit-segment", "seed": seed}
+    logger = logging.getLogger("vgi_rpc.shm")
+    was_disabled = logger.disabled
+    logger.disabled = True  # the 80 %-full warning on every call
+    try:
+        buf, total = seg.buf, seg.size
+        res0 = seg.allocate_and_write(first)
+        assert res0 is not None and res0[0] == H
+        stored_first = bytes(buf[H : H + res0[1]])
+        while seg.allocator.num_allocs < MAX - 2:
+            off = seg.allocator.allocate(unit)
+            assert off is not None
+            buf[off : off + unit] = bytes(((off + j) * 131 % 251) + 1 for j in range(unit))
+        if bytes(buf[H : H + res0[1]]) != stored_first:
+            report(ctx, case, "C28:op-altered-live-batch", f"the batch at the start of the data region changed while the table grew to {MAX - 2} entries")
+        ctx.case(case, nontrivial=True, tags=("k:limit-segment", f"limit-unit:{unit}"))
+        steps = ["alloc", "write", "alloc", "write", "free", "alloc", "free", "write", "free", "free", "write", "alloc", "alloc"]
+        rng.shuffle(steps)
+        steps = ["alloc", "alloc", "alloc"] + steps if rng.random() < 0.5 else ["write", "write", "write"] + steps
+        pend: list = []
+        for i, st in enumerate(steps):
+            pre = parse_header(buf)
+            snap = bytes(buf[H:total])
+            pre_buf = bytes(buf[: H + 64])
+            if st == "alloc":
+                op: dict = {"k": "alloc", "n": unit}
+                res: Any = seg.allocator.allocate(unit)
+            elif st == "write":
+                op = {"k": "write", "rb": meas_small["rb"], "chunks": meas_small["sizes"]}
+                res = seg.allocate_and_write(small)
+            else:
+                x = rng.choice(pre[1:])[0]  # never the first batch: it stays live throughout
+                op = {"k": "free", "x": x}
+                seg.free(x)
+                res = "ok"
+            post = parse_header(buf)
+            after = bytes(buf[H:total])
+            scase = {"kind": "limit-segment", "seed": seed, "step": i, "op": st}
+            ctx.tag(f"seglimit:{st}:{len(pre)}->{len(post)}")
+            check_inv(ctx, scase, post, total)
+            if st == "alloc":
+                check_alloc(ctx, scase, pre, post, total, unit, res)
+            if after != snap:
+                for o, l in pre:
+                    if after[o - H : o - H + l] != snap[o - H : o - H + l]:
+                        report(ctx, scase, "C28:op-altered-live-batch", f"step {i} ({st}) on a table of {len(pre)} entries changed the bytes of the live "
+                               f"region ({o},{l}): {snap[o - H : o - H + 8].hex()} -> {after[o - H : o - H + 8].hex()}")
+                        break
+            pend.append((scase, pre_buf, op, list(res) if isinstance(res, tuple) else res, post, bytes(buf[H - 64 : H + 64])))
+        try:
+            ok = shm._deserialize_from_shm(seg.read_buffer(H, res0[1]), first.schema).equals(first)
+        except Exception:
+            ok = False
+        if not ok:
+            report(ctx, case, "C28:op-altered-live-batch", "the batch at the start of the data region no longer decodes after operations at the table limit")
+        if ctx.driver is not None:
+            reqs = [("C28.cwin", {"total": total, "header": h.hex(), "op": op, "lo": H - 64, "n": 128}) for _c, h, op, _r, _p, _w in pend]
+            for (scase, _h, _op, res, post, win), m in zip(pend, ctx.driver.batch(reqs)):
+                if m["out"] != res or [tuple(e) for e in m["table"]] != post:
+                    ctx.mismatch(scase, {"out": m["out"], "entries": len(m["table"])}, {"out": res, "entries": len(post)}, "segment at the table limit: model vs implementation")
+                elif m["window"] != win.hex():
+                    ctx.mismatch(scase, m["window"], win.hex(), "bytes around the header/data boundary at the table limit: model vs implementation")
+    finally:
+        logger.disabled = was_disabled
+        del buf
+        seg.close()
+        seg.unlink()
 
 
 def codec_impl(case: dict) -> tuple[str, dict, Any]:
@@ -776,6 +892,8 @@ def run(ctx: Any) -> None:
             flush(ctx, pending)
     flush(ctx, pending)
     near_limit(ctx, rng, pending)
+    for _ in range(ctx.budget(2, 10)):
+        limit_segment(ctx, rng.getrandbits(32))
     codec_cases(ctx, rng, ctx.budget(300, 5000))
     sink_cases(ctx, rng, ctx.budget(500, 20000))
     # ---- real segments ------------------------------------------------------------------------------
@@ -819,6 +937,8 @@ def replay(ctx: Any, case: dict) -> None:
             got = ctx.driver.call("C28.sink", {"start": case["start"], "limit": case["limit"], "buflen": case["buflen"], "chunks": case["sizes"]})
             if [g["res"] for g in got] != log:
                 ctx.mismatch(case, [g["res"] for g in got], log, "_ShmSink.write sequence: model vs implementation")
+    elif kind == "limit-segment":
+        limit_segment(ctx, case["seed"])
     elif kind == "pointer":
         pointer_roundtrip(ctx, [case["seed"]])
     elif kind == "stored":
